@@ -50,20 +50,77 @@ def regex_sources():
     S = importlib.import_module("ford.sourceform")
     out = []
 
-    def add(mod, name, rx):
+    def add(mod, name, rx, keep_last_group=False):
         if not hasattr(rx, "pattern"):
             raise ValueError(f"{mod}.{name} is not a compiled regular expression")
-        out.append((mod, name, rx.pattern, int(rx.flags)))
+        out.append((mod, name) + normal_form(rx, keep_last_group))
 
-    add("ford.reader", "FortranReader.COM_RE", R.FortranReader.COM_RE)
+    # the reader asks these two only where the comment starts: that is the group that closes last
+    add("ford.reader", "FortranReader.COM_RE", R.FortranReader.COM_RE, keep_last_group=True)
     dm = R._compile_docmark("@")
     if dm is None or R._compile_docmark("") is not None:
         raise ValueError("_compile_docmark: unexpected result for a non-empty / empty mark")
-    add("ford.reader", "_compile_docmark(@)", dm)
+    add("ford.reader", "_compile_docmark(@)", dm, keep_last_group=True)
     add("ford.sourceform", "QUOTES_RE", S.QUOTES_RE)
     add("ford.sourceform", "COMMA_RE", S.COMMA_RE)
     add("ford.sourceform", "NBSP_RE", S.NBSP_RE)
     return out
+
+
+def normal_form(rx, keep_last_group: bool):
+    """(pattern in a normal form, flags without the layout-only ones): the parsed pattern printed back by
+    translate/c06.py `_seq` - `re.VERBOSE` layout and comments, transparent `(?:...)`, the spelling of escapes and
+    the order inside character classes do not show.  Which groups capture is part of a pattern's meaning only as
+    far as its users read groups: with `keep_last_group` every capturing group is read as `(?:...)` except the
+    top-level group that closes last (named or not), which is printed as `(...)`; without it the users read no
+    group by number except as written (QUOTES_RE's groups are reachable from replacement templates), so groups are
+    kept, names dropped."""
+    import re
+    try:
+        import re._parser as P
+    except ImportError:  # Python < 3.11
+        import sre_parse as P
+    from translate import c06
+
+    parsed = P.parse(rx.pattern, rx.flags)
+    flags = int(parsed.state.flags) & ~(int(re.VERBOSE) | int(re.DEBUG))
+    items = list(parsed)
+    last = None
+    if keep_last_group:
+        tops = [i for i, (op, av) in enumerate(items) if str(op) == "SUBPATTERN" and av[0] is not None]
+        last = tops[-1] if tops else None
+
+    def strip(seq, top):
+        out = []
+        for i, (op, av) in enumerate(seq):
+            o = str(op)
+            if o == "SUBPATTERN":
+                g, add_, del_, sub = av
+                keep = g is not None and (not keep_last_group or (top and i == last))
+                out.append((op, (1 if keep else None, add_, del_, strip(list(sub), False))))
+            elif o in ("MAX_REPEAT", "MIN_REPEAT", "POSSESSIVE_REPEAT"):
+                out.append((op, (av[0], av[1], strip(list(av[2]), False))))
+            elif o == "BRANCH":
+                out.append((op, (av[0], [strip(list(b), False) for b in av[1]])))
+            elif o in ("ASSERT", "ASSERT_NOT"):
+                out.append((op, (av[0], strip(list(av[1]), False))))
+            else:
+                out.append((op, av))
+        return out
+
+    text = c06._seq(c06._flat(strip(items, True)), bool(flags & re.I), grouped=True)
+    # the normal form must be a pattern of the same language (and the same comment start) as the compiled one
+    again = re.compile(text, flags)
+    alphabet = ["a", " ", "'", '"', "!", "@", "&", ";", ",", "''", '""', "\xa0", "x"]
+    import itertools
+    for n in range(5):
+        for combo in itertools.product(alphabet, repeat=n):
+            t = "".join(combo)
+            x, y = rx.search(t), again.search(t)
+            if (x is None) != (y is None) or (x is not None and (x.span() != y.span() or (
+                    keep_last_group and x.start(x.lastindex or 0) != y.start(y.lastindex or 0)))):
+                raise ValueError(f"normal form {text!r} of {rx.pattern!r} differs from it on {t!r}")
+    return text, flags
 
 
 def initial_steps():
